@@ -5,7 +5,7 @@ use crate::gen::{self, Flavor};
 use crate::json::J;
 use crate::props::c01::parse_checked;
 use crate::realpath::{real_path, Path, StepEnd};
-use crate::reflang::{self, probe, Halt};
+use crate::reflang::{self, probe, Cmd, Halt, RArea};
 use crate::rng::Rng;
 use crate::runner::{truncate, Property, RunOut, Tier, Violation};
 use crate::scenario::Scenario;
@@ -517,6 +517,33 @@ impl Property for C11 {
         }
         let max_lines = if tier == Tier::Thorough { 60 } else { 40 };
         sc.script = gen_script(rng, sc.cmds.len(), max_lines);
+        if rng.chance(2) {
+            // a lot of output inside one `run`
+            let pos = rng.usize(0, sc.cmds.len());
+            sc.cmds.insert(pos, Cmd::new(5, rng.usize(4200, 5200), rng.usize(1, 2), RArea::Nil));
+            sc.cmds.insert(pos + 1, Cmd::new(5, 1, 3, RArea::Nil));
+        }
+        if rng.chance(2) {
+            // deep history: a long `run` up to a breakpoint on the last command, then `previous` as often as
+            // steps were made (and a little more), looking at the state on the way
+            sc.cmds.clear();
+            let rounds = rng.usize(150, 260);
+            gen::small_loop_core(rng, &mut sc.cmds, rounds);
+            sc.cmds.push(Cmd::new(0, 1, 7, RArea::Nil));
+            let last = sc.cmds.len() - 1;
+            sc.script = vec![format!("b {}", last), "r".to_string(), "s".to_string()];
+            let back = rounds * 8 + rng.usize(0, 12);
+            for i in 0..back {
+                sc.script.push("p".to_string());
+                if i % 397 == 396 {
+                    sc.script.push("s".to_string());
+                }
+            }
+            sc.script.push("s".to_string());
+            sc.script.push("n".to_string());
+            sc.script.push("s".to_string());
+            sc.budget = 4000;
+        }
         sc.no_final_newline = rng.chance(20);
         sc.set_knob("crlf", rng.chance(10) as i64);
         let ff = rng.chance(40);
@@ -528,7 +555,9 @@ impl Property for C11 {
             sc.plan.sigint_at.sort_unstable();
             sc.plan.sigint_at.dedup();
         }
-        sc.budget = 600;
+        if sc.budget < 600 || sc.budget == 400 {
+            sc.budget = 600;
+        }
         sc.cap_bits = 96;
         if rng.chance(20) {
             sc.set_knob("layout", 1);
